@@ -276,6 +276,8 @@ def main():
     rng = random.Random(common.seed() * 256203221 + 14)
     allrecs += handmade(rng, 60 if quick else 600)
     for old, new, label in c10.handmade_pairs(rng, 40 if quick else 400):
+      if label == 'node-types':
+        continue      # (a user subclass of fdl.Config has no code converter: the generator refuses it loudly)
       for r in records_for(old, new, 'c10' + label):
         r['old'], r['new'] = H.project(old)[0], H.project(new)[0]
         allrecs.append(r)
